@@ -68,6 +68,10 @@ pub struct SCfg {
     /// buffer sizes and cleanup interval at the library defaults
     #[serde(default)]
     pub defaults: bool,
+    /// pairs of keys (2i, 2i+1) share an index hash (distinct conflict hashes), and the store's
+    /// hasher perturbs the schedule whenever a key is hashed (also inside the shard locks)
+    #[serde(default)]
+    pub collide: bool,
 }
 
 fn always() -> Validator {
@@ -209,6 +213,62 @@ fn ttl_of(ttl_ms: u32) -> Duration {
         Duration::from_secs(i64::MAX as u64)
     } else {
         Duration::from_millis(ttl_ms as u64)
+    }
+}
+
+/// pairs of keys share an index hash
+#[derive(Clone, Default)]
+pub struct PairKB;
+impl stretto::KeyBuilder for PairKB {
+    type Key = K;
+    fn hash_index<Q>(&self, key: &Q) -> u64
+    where
+        K: core::borrow::Borrow<Q>,
+        Q: std::hash::Hash + Eq + ?Sized,
+    {
+        let mut h = Capture::default();
+        key.hash(&mut h);
+        std::hash::Hasher::finish(&h) / 2 + 1
+    }
+    fn hash_conflict<Q>(&self, key: &Q) -> u64
+    where
+        K: core::borrow::Borrow<Q>,
+        Q: std::hash::Hash + Eq + ?Sized,
+    {
+        let mut h = Capture::default();
+        key.hash(&mut h);
+        std::hash::Hasher::finish(&h) + 1
+    }
+}
+
+static PERTURB_CTR: AtomicU64 = AtomicU64::new(0);
+
+/// the seeded perturbation of the yield hook, callable from anywhere
+fn perturb_now() {
+    let seed = PERTURB_CTR.fetch_add(0x9E37_79B9_7F4A_7C15, Ordering::Relaxed);
+    if seed == 0 {
+        return;
+    }
+    let mut x = seed;
+    x ^= x >> 29;
+    x = x.wrapping_mul(0xBF58_476D_1CE4_E5B9);
+    x ^= x >> 32;
+    match x % 16 {
+        0 | 1 => std::thread::yield_now(),
+        2 => std::thread::sleep(Duration::from_micros((x >> 8) % 150)),
+        _ => {}
+    }
+}
+
+/// a hasher whose construction is a yield point: every lookup in the store's and the policy's maps
+/// (also those made while a shard lock is held) may be delayed
+#[derive(Clone, Default)]
+pub struct PerturbS;
+impl std::hash::BuildHasher for PerturbS {
+    type Hasher = std::collections::hash_map::DefaultHasher;
+    fn build_hasher(&self) -> Self::Hasher {
+        perturb_now();
+        std::collections::hash_map::DefaultHasher::new()
     }
 }
 
@@ -477,9 +537,24 @@ pub fn build_api(exec: Exec, cfg: &SCfg, cb: RecTs) -> Result<Box<dyn Api>, stre
             }
         };
     }
+    // the hasher perturbs the schedule in every colliding case and in a third of the others
+    if cfg.collide {
+        build_with(exec, cfg, cb, PairKB, PerturbS)
+    } else if (cfg.num_counters + cfg.buffer_size + cfg.max_cost.unsigned_abs() as usize) % 3 == 0 {
+        build_with(exec, cfg, cb, TransparentKeyBuilder::<K>::default(), PerturbS)
+    } else {
+        build_with(exec, cfg, cb, TransparentKeyBuilder::<K>::default(), DetS::default())
+    }
+}
+
+fn build_with<KH, S>(exec: Exec, cfg: &SCfg, cb: RecTs, kh: KH, hasher: S) -> Result<Box<dyn Api>, stretto::CacheError>
+where
+    KH: stretto::KeyBuilder<Key = K> + Send + Sync + 'static,
+    S: std::hash::BuildHasher + Clone + Send + Sync + 'static,
+{
     match exec {
         Exec::Sync => {
-            let c = CacheBuilder::new_with_key_builder(cfg.num_counters, cfg.max_cost, TransparentKeyBuilder::<K>::default())
+            let c = CacheBuilder::new_with_key_builder(cfg.num_counters, cfg.max_cost, kh)
                 .set_buffer_size(cfg.buffer_size)
                 .set_buffer_items(cfg.buffer_items)
                 .set_ignore_internal_cost(cfg.ignore_internal_cost)
@@ -488,12 +563,12 @@ pub fn build_api(exec: Exec, cfg: &SCfg, cb: RecTs) -> Result<Box<dyn Api>, stre
                 .set_coster(TagCoster)
                 .set_update_validator(cfg.validator)
                 .set_callback(cb)
-                .set_hasher(DetS::default())
+                .set_hasher(hasher)
                 .finalize()?;
             Ok(Box::new(SyncApi(c)))
         }
         _ => {
-            let b = AsyncCacheBuilder::new_with_key_builder(cfg.num_counters, cfg.max_cost, TransparentKeyBuilder::<K>::default())
+            let b = AsyncCacheBuilder::new_with_key_builder(cfg.num_counters, cfg.max_cost, kh)
                 .set_buffer_size(cfg.buffer_size)
                 .set_buffer_items(cfg.buffer_items)
                 .set_ignore_internal_cost(cfg.ignore_internal_cost)
@@ -502,7 +577,7 @@ pub fn build_api(exec: Exec, cfg: &SCfg, cb: RecTs) -> Result<Box<dyn Api>, stre
                 .set_coster(TagCoster)
                 .set_update_validator(cfg.validator)
                 .set_callback(cb)
-                .set_hasher(DetS::default());
+                .set_hasher(hasher);
             let c = match exec {
                 Exec::TokioMt => b.finalize(spawn_tokio_mt)?,
                 Exec::TokioCt => b.finalize(spawn_tokio_ct)?,
@@ -735,6 +810,7 @@ static CLOSE_CLEAR_DONE_NS: AtomicU64 = AtomicU64::new(0);
 static CLOSE_STRETCH: AtomicBool = AtomicBool::new(false);
 
 fn perturb_hook(seed: u64) {
+    PERTURB_CTR.store(seed, Ordering::Relaxed);
     if seed == 0 {
         stretto::verif::set_global_yield_hook(None);
         return;
@@ -1114,7 +1190,8 @@ fn run_inner(case: &StressCase) -> SResult {
         return v;
     }
     // quiescence-based invariants
-    if matches!(case.kind, Kind::Invariants | Kind::Barrier) {
+    // (with shared index hashes the charge bookkeeping is not claimed - D9 -: inline value checks only)
+    if matches!(case.kind, Kind::Invariants | Kind::Barrier) && !case.cfg.collide {
         if let Some(v) = watch(&progress, grace, &mk_hang2, || quiescent_invariants(case, &api, &sh, &progress)) {
             return v;
         }
@@ -1357,7 +1434,7 @@ fn client(t: usize, kind: Kind, api: Box<dyn Api>, script: &[SOp], sh: &Shared, 
                 sh.lookups.fetch_add(1, Ordering::SeqCst);
                 if let Some(v) = r {
                     if v.key != k {
-                        sh.violations.lock().push(SResult::violation(&["C02"], "lookup_other_key", format!("thread {}: lookup of key {} returned {} written under key {}", t, k, v, v.key)));
+                        sh.violations.lock().push(SResult::violation(&["C02", "C18"], "lookup_other_key", format!("thread {}: lookup of key {} returned {} written under key {}", t, k, v, v.key)));
                     } else if !sh.issued.lock().get(&k).map(|s| s.contains(&v)).unwrap_or(false) {
                         sh.violations.lock().push(SResult::violation(&["C02"], "lookup_unissued", format!("thread {}: lookup of key {} returned {} which nobody wrote", t, k, v)));
                     } else {
@@ -1745,7 +1822,7 @@ pub fn stress_strategy(kind: Kind, async_pct: u32) -> BoxedStrategy<StressCase> 
                     StressCase {
                         kind,
                         exec,
-                        cfg: SCfg { num_counters: 1000, max_cost: 1 << 40, buffer_size: bs, buffer_items: 64, metrics: false, ignore_internal_cost: true, cleanup_ms: 2, validator: Validator::Always, defaults: false },
+                        cfg: SCfg { num_counters: 1000, max_cost: 1 << 40, buffer_size: bs, buffer_items: 64, metrics: false, ignore_internal_cost: true, cleanup_ms: 2, validator: Validator::Always, defaults: false, collide: false },
                         threads,
                         perturb,
                         drop_only: false,
@@ -1788,7 +1865,7 @@ pub fn stress_strategy(kind: Kind, async_pct: u32) -> BoxedStrategy<StressCase> 
                         StressCase {
                             kind,
                             exec,
-                            cfg: SCfg { num_counters: 100, max_cost: 1 << 40, buffer_size: bs, buffer_items: 8, metrics: false, ignore_internal_cost: true, cleanup_ms: 500, validator: Validator::Always, defaults: false },
+                            cfg: SCfg { num_counters: 100, max_cost: 1 << 40, buffer_size: bs, buffer_items: 8, metrics: false, ignore_internal_cost: true, cleanup_ms: 500, validator: Validator::Always, defaults: false, collide: false },
                             threads,
                             perturb,
                             drop_only: false,
@@ -1840,7 +1917,7 @@ pub fn stress_strategy(kind: Kind, async_pct: u32) -> BoxedStrategy<StressCase> 
                     StressCase {
                         kind,
                         exec,
-                        cfg: SCfg { num_counters: 64, max_cost: 12, buffer_size: bs, buffer_items: 4, metrics: true, ignore_internal_cost: true, cleanup_ms: 20, validator: Validator::Always, defaults: false },
+                        cfg: SCfg { num_counters: 64, max_cost: 12, buffer_size: bs, buffer_items: 4, metrics: true, ignore_internal_cost: true, cleanup_ms: 20, validator: Validator::Always, defaults: false, collide: false },
                         threads,
                         perturb,
                         drop_only,
@@ -1863,7 +1940,7 @@ pub fn stress_strategy(kind: Kind, async_pct: u32) -> BoxedStrategy<StressCase> 
                 // one case in five goes through the default builder (default key builder, hasher,
                 // buffer sizes, cleanup interval); a zero buffer size cannot be expressed there
                 let defaults = perturb % 5 == 0 && bs != 0;
-                let cfg = SCfg { num_counters: nc, max_cost: mc, buffer_size: bs, buffer_items: bi, metrics, ignore_internal_cost: ign, cleanup_ms, validator: Validator::Always, defaults };
+                let cfg = SCfg { num_counters: nc, max_cost: mc, buffer_size: bs, buffer_items: bi, metrics, ignore_internal_cost: ign, cleanup_ms, validator: Validator::Always, defaults, collide: false };
                 let internal = if ign { 0 } else { isz };
                 let unit = if mc > 0 && mc < i64::MAX / 4 { (mc - internal).max(1) } else { 1 };
                 // under a negative max_cost only items of negative cost can be admitted: the
@@ -1893,7 +1970,7 @@ pub fn stress_strategy(kind: Kind, async_pct: u32) -> BoxedStrategy<StressCase> 
             .prop_map(move |(exec, cleanup_ms, ins, metrics, perturb)| StressCase {
                 kind,
                 exec,
-                cfg: SCfg { num_counters: 100, max_cost: 1 << 40, buffer_size: 64, buffer_items: 8, metrics, ignore_internal_cost: true, cleanup_ms, validator: Validator::Always, defaults: false },
+                cfg: SCfg { num_counters: 100, max_cost: 1 << 40, buffer_size: 64, buffer_items: 8, metrics, ignore_internal_cost: true, cleanup_ms, validator: Validator::Always, defaults: false, collide: false },
                 threads: vec![ins.into_iter().map(|(k, cost, ttl_ms)| SOp::Insert { k, cost, ttl_ms }).collect()],
                 perturb,
                 drop_only: false,
@@ -1923,7 +2000,7 @@ pub fn stress_strategy(kind: Kind, async_pct: u32) -> BoxedStrategy<StressCase> 
                     StressCase {
                         kind,
                         exec,
-                        cfg: SCfg { num_counters: 100, max_cost: 1 << 40, buffer_size: 4096, buffer_items: 8, metrics: false, ignore_internal_cost: true, cleanup_ms: 500, validator: Validator::TagGe, defaults: false },
+                        cfg: SCfg { num_counters: 100, max_cost: 1 << 40, buffer_size: 4096, buffer_items: 8, metrics: false, ignore_internal_cost: true, cleanup_ms: 500, validator: Validator::TagGe, defaults: false, collide: false },
                         threads,
                         perturb,
                         drop_only: false,
@@ -1960,7 +2037,7 @@ pub fn stress_strategy(kind: Kind, async_pct: u32) -> BoxedStrategy<StressCase> 
                         exec,
                         // tight capacity for the disturbers' keys: every insert needs an admission
                         // decision under the policy lock; aging window far above the lookup count
-                        cfg: SCfg { num_counters: 65536, max_cost: 55, buffer_size: 64, buffer_items: bi, metrics: true, ignore_internal_cost: true, cleanup_ms: 500, validator: Validator::Always, defaults: false },
+                        cfg: SCfg { num_counters: 65536, max_cost: 55, buffer_size: 64, buffer_items: bi, metrics: true, ignore_internal_cost: true, cleanup_ms: 500, validator: Validator::Always, defaults: false, collide: false },
                         threads,
                         perturb,
                         drop_only: false,
@@ -2001,10 +2078,12 @@ pub fn stress_strategy(kind: Kind, async_pct: u32) -> BoxedStrategy<StressCase> 
                 } else {
                     op.boxed()
                 };
+                // one case in six on colliding key pairs with a perturbing hasher (value checks only)
+                let collide = perturb % 6 == 0;
                 proptest::collection::vec(proptest::collection::vec(op, 5..50), nt..=nt).prop_map(move |threads| StressCase {
                     kind,
                     exec,
-                    cfg: SCfg { num_counters: 64, max_cost, buffer_size: bs, buffer_items: 3, metrics, ignore_internal_cost: ign, cleanup_ms: 5, validator: Validator::Always, defaults: false },
+                    cfg: SCfg { num_counters: 64, max_cost, buffer_size: bs, buffer_items: 3, metrics, ignore_internal_cost: ign, cleanup_ms: 5, validator: Validator::Always, defaults: false, collide },
                     threads,
                     perturb,
                     drop_only: false,
